@@ -104,7 +104,11 @@ def finish(prop, tier, seed, level, obligations, t0, explanation, trusted_base, 
                        'bounded': o.bounded, 'verifier_output': o.raw[-30000:], 'extra': o.extra}, f, indent=1)
         tail = '' if (o.witness is not None and o.confirmed) else ' no-failing-input-found'
         print(f'VIOLATION property={prop} replay={rpath}{tail}')
-        print(f'  obligation {o.name}: {o.clause or o.detail}'[:400])
+        shown = o.clause or o.detail
+        if o.engine == 'V' and o.detail:
+            # Verus names the exact clause that failed: show that rather than the whole contract
+            shown = ' '.join(o.detail.split())
+        print(f'  obligation {o.name}: {shown}'[:600])
     for o in undecided:
         print(f'UNDECIDED property={prop} obligation={o.name}: {o.detail[:300]}')
     for e in infra_errors or []:
